@@ -337,4 +337,30 @@ example : ∃ s s', Iter.Reach ⟨Iter.code, 1, 1, 8⟩ s ∧ s.cons = .next ∧
   ⟨_, _, Iter.reach_of_run Iter.Reach.init (ls := [.dPull, .srcRet (some 7), .dAcquire, .dSend 0, .dPull, .srcRet (some 8),
       .dAcquire, .nextCall]) rfl, rfl, by decide, rfl, rfl, rfl, rfl⟩
 
+/-- **Consuming a MapIterator to the end terminates** (the counterpart of `Close` for an iterator that
+"must be consumed completely"). Let `s` be reachable with the source ended. (1) Every continuation —
+the consumer calling `Next` again and again, internal steps, returns of `f`, in any order — that has not
+yet reported the end has at most `IM.delta s` steps (`5` per busy worker, `2` per result waiting in the
+reorder buffer, `1` for the consumer). (2) A continuation of at most `IM.delta s + 1` steps exists at the
+end of which `Next` has reported the end. -/
+theorem mapIterator_drain_terminates (cfg : Iter.Cfg) (hc : cfg.code = Iter.code) (hg : 1 ≤ cfg.gmp)
+    (s : Iter.St) (h : Iter.Reach cfg s) (hend : s.srcEnded = true) :
+    (∀ ls s', Iter.run cfg s ls = some s' → Iter.NextRes.end ∉ s'.results → ls.length + IM.delta s' ≤ IM.delta s) ∧
+    (∃ ls s', Iter.run cfg s ls = some s' ∧ Iter.NextRes.end ∈ s'.results ∧ ls.length ≤ IM.delta s + 1) := by
+  have hs : cfg.code.Sound := hc ▸ iter_code_sound
+  have hd : s.disp = .done := by
+    have hse := (I.invA hs hg h).SE
+    rw [hend] at hse
+    cases hdp : s.disp <;> rw [hdp] at hse <;> first | rfl | (simp [I.dDone] at hse)
+  exact ⟨fun ls s' hr he => IM.run_delta hd hr he, IM.exists_drain_run hs hg (IM.delta s) s h hd (Nat.le_refl _)⟩
+
+/-- non-vacuity: two items, the source has ended, item 1 is still inside `f`, item 0 waits for the
+consumer: `delta = 5 + 4 + 1 = 10`; nine steps later the end has been reported -/
+example : ∃ s s', Iter.Reach ⟨Iter.code, 2, 2, 8⟩ s ∧ s.srcEnded = true ∧ IM.delta s = 10 ∧
+    Iter.run ⟨Iter.code, 2, 2, 8⟩ s [.nextCall, .wHandOff 0, .cYield, .fRet 1 101, .nextCall, .wHandOff 1, .cYield,
+      .wExitIdle 0, .wExitIdle 1, .nextCall, .cRecvClosed] = some s' ∧
+    s'.results = [.val 0 100, .val 1 101, .end] :=
+  ⟨_, _, Iter.reach_of_run Iter.Reach.init (ls := [.dPull, .srcRet (some 7), .dAcquire, .dSend 0, .dPull, .srcRet (some 8),
+      .dAcquire, .dSend 1, .dPull, .srcRet none, .fRet 0 100]) rfl, rfl, by decide, rfl, rfl⟩
+
 end Juniper.Props.C14Progress
